@@ -27,6 +27,7 @@ type Case struct {
 	Stage     string       `json:"stage"`          // same-chunk, queued, held, answered, unknown, flush-of-flush, multi
 	NFlush    int          `json:"nflush"`
 	Holds     []sched.Hold `json:"holds,omitempty"`
+	Self      bool         `json:"self,omitempty"` // stage unknown: the first Tflush names its own tag, the others name that Tflush
 }
 
 const deadline = 30 * time.Second
@@ -236,7 +237,11 @@ func run(c *Case) error {
 	case "unknown":
 		targetSent = false
 		for i := 0; i < nflush; i++ {
-			_ = cl.Send(mkFlush(i, uint16(0x4000+i)))
+			old := uint16(0x4000 + i)
+			if c.Self {
+				old = 20 // mkFlush gives flush i the tag 20+i
+			}
+			_ = cl.Send(mkFlush(i, old))
 		}
 	default:
 		return fmt.Errorf("harness: unknown stage %q", c.Stage)
@@ -570,6 +575,9 @@ func execute(test string, c *Case) error {
 	hx.Eval()
 	hx.Label(fmt.Sprintf("target=%s", c.Target))
 	hx.Label(fmt.Sprintf("stage=%s flushmode=%d", c.Stage, c.FlushMode))
+	if c.Self {
+		hx.Label("tflush names its own tag")
+	}
 	switch c.Stage {
 	case "same-chunk", "queued", "held", "multi", "flush-of-flush":
 		b, _ := json.Marshal(c)
@@ -581,7 +589,7 @@ func execute(test string, c *Case) error {
 		if blocked := hx.BlockedInGo9p(); blocked != "" {
 			return fmt.Errorf("%s; goroutines blocked inside go9p:\n%s", string(h), blocked)
 		}
-		if c.Stage != "unknown" && (len(c.Holds) == 0) {
+		if len(c.Holds) == 0 {
 			// every held request was released and nothing is blocked: a missing Rflush is a violation
 			return fmt.Errorf("%s (nothing blocked inside go9p: the reply was never produced)", string(h))
 		}
@@ -647,6 +655,9 @@ func TestPropStages(t *testing.T) {
 		}
 		if c.Stage == "flush-of-flush" {
 			c.NFlush = 2
+		}
+		if c.Stage == "unknown" {
+			c.Self = rapid.Bool().Draw(t, "self")
 		}
 		if c.Target == "auth" && (c.Stage == "held" || c.Stage == "multi" || c.Stage == "flush-of-flush") {
 			c.Stage = "same-chunk" // AuthInit has no gate
